@@ -16,7 +16,8 @@ theorem C18_update_before (sc : Schema) (cfg : Cfg) (t : Table) (args : Args) (s
     (h : stmtPhase1 sc cfg t args (.update sets w) = .ok (t', item, keys)) :
     item.before = (t.filter fun r => matches_ r args w).map (project sc (updateCols sc cfg sets)) ∧
     keys = (t.filter fun r => matches_ r args w).map (keyOf sc) ∧ item.kind = .update := by
-  simp only [stmtPhase1, apply] at h
+  replace h := (stmtPhase1_update_ok h).2
+  simp only [updatePhase1, apply] at h
   split at h
   · cases h
   · simp only [Except.ok.injEq, Prod.mk.injEq] at h
@@ -60,7 +61,8 @@ theorem C18_update_after (sc : Schema) (cfg : Cfg) (t : Table) (args : Args) (se
     fun r _ => applySets_keyOf sc args sets r hs
   have hafter := update_after sc t (fun r => matches_ r args w) (applySets args sets) hu hkey
   simp only [updated] at hafter
-  simp only [stmtPhase1, apply]
+  rw [stmtPhase1_update_of_noKey (namesKey_false_of hs)]
+  simp only [updatePhase1, apply]
   rw [hafter]
   simp
 
@@ -104,8 +106,18 @@ example : ∃ item keys, stmtPhase1 { ncols := 2, pk := [0] } ⟨true, true⟩ [
     (.update [(1, .plus 1 (.lit (.int 1)))] (.cmp .eq (.col 0) (.par 0))) = .ok ([[.int 1, .int 5], [.int 2, .int 7]], item, keys) ∧
     item.before = [⟨[.int 2], [(1, .int 6), (0, .int 2)]⟩] ∧ item.after = [⟨[.int 2], [(1, .int 7), (0, .int 2)]⟩] :=
   ⟨_, _, rfl, rfl, rfl⟩
-/-- an UPDATE that moves a row to another key is rejected -/
+/-- an UPDATE that names a key column is rejected before it runs -/
 example : stmtPhase1 { ncols := 2, pk := [0] } ⟨true, false⟩ [[.int 1, .int 5]] []
     (.update [(0, .val (.lit (.int 9)))] .tt) = .error .pkChanged := rfl
+
+/-- **key-changing statements are rejected**: every UPDATE whose SET list names a key column fails
+    with `pkChanged`, whatever the table, and nothing is recorded -/
+theorem C18_key_update_rejected (sc : Schema) (cfg : Cfg) (t : Table) (args : Args) (sets : List (Nat × SetE)) (w : Cond)
+    (h : ∃ p ∈ sets, p.1 ∈ sc.pk) : stmtPhase1 sc cfg t args (.update sets w) = .error .pkChanged := by
+  obtain ⟨p, hp, hk⟩ := h
+  have : namesKey sc sets = true := by
+    simp only [namesKey, List.any_eq_true]
+    exact ⟨p, hp, by simpa using hk⟩
+  simp [stmtPhase1, this]
 
 end Seata.Props.C18
